@@ -96,9 +96,23 @@ def conj_fact():
     if calls == ['diff(a_conj, b_conj, path=path, config=config)']: return True
     raise GenError('diff_single_outputs: unrecognised computation of dd_conj: %r' % calls)
 
+def mime_guard_fact():
+    src = open(os.path.join(REPO, 'nbdime/diffing/notebooks.py')).read()
+    tree = ast.parse(src)
+    fn = [n for n in ast.walk(tree) if isinstance(n, ast.FunctionDef) and n.name == 'add_mime_diff']
+    if len(fn) != 1: raise GenError('add_mime_diff not found exactly once')
+    tests = [ast.unparse(n.test) for n in ast.walk(fn[0]) if isinstance(n, ast.If)
+             and any('dd = diff(avalue, bvalue)' == ast.unparse(x) for x in n.body)]
+    plain = 'any((mimetype.startswith(tm) for tm in _split_mimes))'
+    guarded = plain + ' and type(avalue) is type(bvalue) and isinstance(avalue, (str, list, dict))'
+    if tests == [plain]: return False
+    if tests == [guarded]: return True
+    raise GenError('add_mime_diff: unrecognised condition for recursive diff: %r' % tests)
+
 def main():
     d = run_in_repo(CODE)
     conj_cfg = conj_fact()
+    mime_guard = mime_guard_fact()
     dict_strict = value_compare_fact('nbdime/diffing/generic.py', 'diff_dicts', 'di.replace(key, bvalue)')
     mime_strict = value_compare_fact('nbdime/diffing/notebooks.py', 'add_mime_diff', 'diffbuilder.replace(key, bvalue)')
     if dict_strict or mime_strict or 'nbdime.utils.strict_equals' in (d['pred_default'] + d['generic_pred_default']):
@@ -133,7 +147,7 @@ def main():
     lines.append('  c_atomic := ' + coq_list('(%s, %s)' % (coq_str(k), coq_bool(v)) for k, v in sorted(d['atomic'].items())) + ';')
     lines.append('  c_split_mimes := ' + coq_list(coq_str(m) for m in d['split_mimes']) + ';')
     lines.append('  c_generic_pred := ' + coq_list(pred(x) for x in d['generic_pred_default']) + ';')
-    lines.append('  c_dict_strict := %s; c_mime_strict := %s; c_conj_cfg := %s |}.' % (coq_bool(dict_strict), coq_bool(mime_strict), coq_bool(conj_cfg)))
+    lines.append('  c_dict_strict := %s; c_mime_strict := %s; c_conj_cfg := %s; c_mime_guard := %s |}.' % (coq_bool(dict_strict), coq_bool(mime_strict), coq_bool(conj_cfg), coq_bool(mime_guard)))
     lines.append('')
     lines.append('Definition generic_config : config := {|')
     lines.append('  c_predicates := [];')
@@ -144,7 +158,7 @@ def main():
     lines.append('  c_atomic := [];')
     lines.append('  c_split_mimes := ' + coq_list(coq_str(m) for m in d['split_mimes']) + ';')
     lines.append('  c_generic_pred := ' + coq_list(pred(x) for x in d['generic_pred_default']) + ';')
-    lines.append('  c_dict_strict := %s; c_mime_strict := %s; c_conj_cfg := %s |}.' % (coq_bool(dict_strict), coq_bool(mime_strict), coq_bool(conj_cfg)))
+    lines.append('  c_dict_strict := %s; c_mime_strict := %s; c_conj_cfg := %s; c_mime_guard := %s |}.' % (coq_bool(dict_strict), coq_bool(mime_strict), coq_bool(conj_cfg), coq_bool(mime_guard)))
     lines.append('')
     if d['differ_keys']:
         raise GenError('notebook_differs has explicit keys after reset: %r' % d['differ_keys'])
